@@ -52,7 +52,7 @@ def d1_venn_chunks(ctx):
     if not ss:
         raise AnchorMissing("_spikes_venn: searchsorted of the chunk bounds not found")
     for c in ss:
-        b = c.args[1]
+        b = expand_name(du, c.args[1], c) if isinstance(c.args[1], ast.Name) else c.args[1]
         ok = isinstance(b, (ast.List, ast.Tuple)) and len(b.elts) == 2
         lo = hi = None
         if ok:
@@ -69,21 +69,55 @@ def d1_venn_chunks(ctx):
         par = [n for n in find(lp, (ast.ListComp,)) if any(x is c for x in ast.walk(n))]
         ctx.check(bool(par) and "samples_tuple" in src(par[0].generators[0].iter), fi, c, par[0] if par else c, "the same bounds are applied to every sorter's spike train",
                   "the chunk selection does not run over all sorters", key="all-sorters")
-    # number of chunks covers the last spike
-    nd = [d for d in du.defs if d.var == "num_chunks" and d.kind == "assign"]
+    # the chunk indices run from (at most) the chunk of the first spike to the chunk of the last spike of any sorter: range(A, B) with B == max // C + 1 and
+    # A == 0 or A == min // C
+    it = lp.iter
+    while isinstance(it, ast.Call) and call_name(it) in ("tqdm", "trange", "list") and it.args:
+        it = it.args[0]
     okn = False
-    if nd:
+    detail = "the chunk loop is not a range"
+    nd = [d for d in du.defs if d.var == "num_chunks" and d.kind == "assign"]
+    if isinstance(it, ast.Call) and call_name(it) == "range" and 1 <= len(it.args) <= 2:
+        e0 = Evaluator(resolve=lambda e: repo.resolve_expr(fi, e))
+        e0.facts.int_syms |= {"max_samples", "min_samples", "chunk_size"}
+        sx0 = SymExec(e0, on_undecided="havoc")
+        for st in fi.node.body:
+            if st is lp or any(x is lp for x in ast.walk(st)):
+                break
+            if isinstance(st, ast.Assign) and isinstance(st.targets[0], ast.Name) and st.targets[0].id in ("max_samples", "min_samples"):
+                continue          # kept symbolic (checked below to be the extrema over all sorters)
+            if any(isinstance(n_, ast.Name) and isinstance(n_.ctx, ast.Store) and n_.id == "chunk_size" for n_ in ast.walk(st)):
+                continue          # the default of the chunk size: whatever it is, it is the chunk size (a whole number of samples)
+            try:
+                sx0.step(st)
+            except Undecided:
+                pass
+        cs_ = e0.env.get("chunk_size")
+        if cs_ is not None:
+            e0.facts.int_syms |= cs_.symbols()          # whatever the chunk size was defaulted to, it is a whole number of samples
         try:
-            e0 = Evaluator(resolve=lambda e: repo.resolve_expr(fi, e))
-            e0.facts.int_syms |= {"max_samples", "chunk_size"}
-            p = e0.ev(nd[0].value)
-            okn = p == e0.ev(ast.parse("max_samples // chunk_size + 1", mode="eval").body)
-        except Undecided:
-            okn = False
+            start = e0.ev(it.args[0]) if len(it.args) == 2 else Poly.const(0)
+            stop = e0.ev(it.args[-1])
+            want_stop = e0.ev(ast.parse("max_samples // chunk_size + 1", mode="eval").body)
+            sc = start.canon()
+            first_ok = start == Poly.const(0) or (len(start.t) == 1 and "floordiv(" in sc and "min" in sc and list(start.t.values())[0] == 1)
+            okn = stop == want_stop and first_ok
+            detail = f"chunks {start} .. {stop} - 1"
+        except Undecided as ex:
+            detail = f"not evaluable ({ex})"
     ms = [d for d in du.defs if d.var == "max_samples" and d.kind == "assign"]
-    okm = bool(ms) and "max" in src(ms[0].value) and "samples_tuple" in src(ms[0].value)
-    ctx.check(okn and okm, fi, nd[0].stmt if nd else fi.node, nd[0].stmt if nd else "num_chunks", "chunks run up to and including the one that holds the last spike of any sorter",
-              "the number of chunks is not max(all samples) // chunk_size + 1: the spikes after the last chunk are never counted (or an empty chunk is added)", key="chunk-count")
+
+    def _over_all(v):
+        from sa.common import expand_name as _x
+        t = src(v)
+        for n_ in ast.walk(v):
+            if isinstance(n_, ast.Name):
+                t += " " + src(_x(du, n_, ms[0].stmt))
+        return "samples_tuple" in t
+    okm = bool(ms) and "max" in src(ms[0].value) and _over_all(ms[0].value)
+    ctx.check(okn and okm, fi, nd[0].stmt if nd else lp, nd[0].stmt if nd else lp, "chunks run up to and including the one that holds the last spike of any sorter",
+              f"the chunk indices ({detail}) do not end with the chunk of the last spike, max(all samples) // chunk_size: the spikes after the last chunk are never counted "
+              "(or an empty chunk is added) - the result depends on the chunk size", key="chunk-count", name_free=True)
     # re-basing and histogram range
     # the chunk-local samples: <samples>[<chunk range>] (cast) - <offset>, for every sorter
     sc = []
@@ -102,6 +136,7 @@ def d1_venn_chunks(ctx):
     okr = False
     if bc and len(bc[0].args) >= 5:
         xl = bc[0].args[4]
+        xl = expand_name(du, xl, bc[0]) if isinstance(xl, ast.Name) else xl
         if isinstance(xl, (ast.List, ast.Tuple)) and len(xl.elts) == 2:
             try:
                 okr = ev.ev(xl.elts[0]) == Poly.const(0) and ev.ev(xl.elts[1]) == C
@@ -230,6 +265,31 @@ def d3_savgol_cover(ctx):
         iname = loc_name(centre_loops[0].target) if centre_loops else "i"
         okt = isinstance(v, ast.BinOp) and isinstance(v.op, ast.Sub) and jn is not None and \
             norm(v) == norm(ast.parse(f"x[{iname} + {jn} - half_window] - x[{iname}]", mode="eval").body)
+        if not okt and isinstance(v, ast.BinOp) and isinstance(v.op, ast.Sub) and jn is not None:
+            # same index written in another order / through hoisted locals: compare normal forms of the subscripts
+            duw = DefUse(fi.node)
+
+            def idx_of(e_):
+                e_ = expand_name(duw, e_, tw[0]) if isinstance(e_, ast.Name) else e_
+                return e_.slice if isinstance(e_, ast.Subscript) and loc_name(e_.value) == "x" else None
+            il, ir = idx_of(v.left), idx_of(v.right)
+            if il is not None and ir is not None:
+                evw = Evaluator(resolve=lambda e: repo.resolve_expr(fi, e))
+                evw.du = duw
+                try:
+                    import copy as _copy
+
+                    class _X(ast.NodeTransformer):
+                        def visit_Name(self, node):
+                            if node.id in (iname, jn, "half_window"):
+                                return node
+                            v_ = expand_name(duw, node, tw[0])
+                            return self.visit(_copy.deepcopy(v_)) if v_ is not node and not any(isinstance(n_, ast.Name) and n_.id == node.id for n_ in ast.walk(v_)) else node
+                    pl = evw.ev(_X().visit(_copy.deepcopy(il)))
+                    pr = evw.ev(_X().visit(_copy.deepcopy(ir)))
+                    okt = pl == Poly.sym(iname) + Poly.sym(jn) - Poly.sym("half_window") and pr == Poly.sym(iname)
+                except Undecided:
+                    okt = False
     ctx.check(okt, fi, tw[0] if tw else fi.node, tw[0] if tw else "t[j]", "local abscissae are x[i - h .. i + h] - x[i] (window centred on the sample)", "the local window is not centred on sample i", key="centre")
     rets = returns_of(fi.node)
     ctx.check(bool(rets) and loc_name(rets[-1].value) == "y_smoothed", fi, rets[-1] if rets else fi.node, rets[-1] if rets else "return", "the filled vector is returned", "something else is returned", key="ret")
